@@ -73,13 +73,16 @@ Definition otlp_res_stream (q : quirks) (r : ores) : list span_rows * bool :=
   if r_has_res r || negb (q_nil_resource q) then mapM_pre (otlp_span q (res_attrs r)) spans
   else ([], match spans with [] => false | _ => true end).
 
-Fixpoint otlp_stream (q : quirks) (b : list ores) : list span_rows * bool :=
+Fixpoint otlp_stream_core (q : quirks) (b : list ores) : list span_rows * bool :=
   match b with
   | [] => ([], false)
   | r :: rest =>
       let '(rows, e) := otlp_res_stream q r in
-      if e then (rows, true) else let '(rows', e') := otlp_stream q rest in ((rows ++ rows')%list, e')
+      if e then (rows, true) else let '(rows', e') := otlp_stream_core q rest in ((rows ++ rows')%list, e')
   end.
+(* a request with a string that is not UTF-8 fails in proto.Unmarshal, before any span reaches onSpan *)
+Definition otlp_stream (q : quirks) (b : list ores) : list span_rows * bool :=
+  if otlp_utf8_ok b then otlp_stream_core q b else ([], true).
 
 Fixpoint zipkin_stream_from (q : quirks) (nd : bool) (i : N) (st : zst) (es : list jv) : list span_rows * bool :=
   match es with
